@@ -1,10 +1,10 @@
-\* generation (thorough): every range(start,end,step) with start in -2..3, end in -3..4, step in -3..3 and the shorter constructors x five tile settings, then ONE call
+\* generation (thorough): every range(start,end,step) with start in -2..3, end in -3..4, step in -3..3 and the shorter constructors x two tile settings, then ONE call
 SPECIFICATION Spec
 CONSTANTS
   Mode = "range"
   Ops <- OpsRange
   Contents <- ContentsTiny
-  Tilings <- TilingsFive
+  Tilings <- TilingsTwo
   PredFns <- RPredsQuick
   MapFns <- RMapsQuick
   EachFns <- REachQuick
